@@ -53,9 +53,22 @@ fn maps() -> Vec<Beatmap> {
         // (lists long enough for a "last lookup" hint or a bisection cache to be worth keeping)
         many_points_map(72, 0),
         many_points_map(90, 1),
-        // #14: 2100 circles in repeating rhythm islands (3 fast, 2 slow): more than 2048 difficulty objects
-        MapSpec { repeat: 420, ..MapSpec::new(0, vec![o(Kind::Circle, 300, PosK::Far, 0, 0), o(Kind::Circle, 100, PosK::Near, 0, 0), o(Kind::Circle, 100, PosK::Far, 0, 0), o(Kind::Circle, 300, PosK::Near, 0, 0), o(Kind::Circle, 200, PosK::Far, 0, 0)]) }.decode(),
+        // #14: 2100 circles in triplets (100, 100, 300 ms) at scattered positions: more than 2048 difficulty objects, and
+        // the repeated-island term of the rhythm evaluator decides the speed strain (a map whose islands never repeat leaves
+        // the result blind to that term)
+        triplet_map(2100),
     ]
+}
+
+fn triplet_map(n: u32) -> Beatmap {
+    use std::fmt::Write as _;
+    let mut t = String::from("osu file format v14\n\n[General]\nMode: 0\nStackLeniency: 0.7\n\n[Difficulty]\nHPDrainRate:5\nCircleSize:4\nOverallDifficulty:8\nApproachRate:9\nSliderMultiplier:1.4\nSliderTickRate:1\n\n[TimingPoints]\n0,400,4,2,0,100,1,0\n\n[HitObjects]\n");
+    let mut time = 1000;
+    for i in 0..n {
+        let _ = writeln!(t, "{},{},{time},1,0,0:0:0:0:", 64 + (i * 97) % 384, 48 + (i * 61) % 288);
+        time += if i % 3 == 2 { 300 } else { 100 };
+    }
+    Beatmap::from_bytes(t.as_bytes()).expect("decodes")
 }
 
 fn many_points_map(points: u32, flavour: u32) -> Beatmap {
@@ -550,7 +563,11 @@ fn main() {
         hot.sort_unstable();
         hot.dedup();
         if ok {
-            let pairs: Vec<(usize, usize)> = (0..gjobs.len()).flat_map(|a| (a..gjobs.len()).map(move |b| (a, b))).collect();
+            let mut pairs: Vec<(usize, usize)> = (0..gjobs.len()).flat_map(|a| (a..gjobs.len()).map(move |b| (a, b))).collect();
+            // pairs whose jobs both write one guarded location first: they are where an interleaving can matter, and their
+            // executions are the expensive ones, so a wall budget must not run out before they start (stable sort: on a tree
+            // without such writes the order is unchanged)
+            pairs.sort_by_key(|&(a, b)| written_by[a].intersection(&written_by[b]).next().is_none());
             let bound_max = 2usize;
             let max_runs: u64 = ctx.pick(150, 40_000);
             let hard_stop = std::time::Instant::now() + std::time::Duration::from_secs(ctx.pick(120, 1500));
